@@ -45,7 +45,7 @@ def main(tier):
         if dtype == "bfloat16" and w == "qint8" and a is None and spec["t"] == "linear" and spec["in"] % 4 == 0 and spec["in"] % 16 != 0:
             spec["in"] = 16 * (spec["in"] // 16 + 1)  # F14 (C07): interpreter crash in torch._weight_int8pack_mm
         modules.append({"seed": ck.seed * 1000 + 5000 + i, "dtype": dtype, "weights": w, "activations": a, "frozen": rng.random() < 0.3, "variant": rng.randint(0, 11),
-                        "layout": rng.choice(["contig", "contig", "permuted", "expanded"]), "updates": rng.randint(0, 2), "spec": spec})
+                        "layout": rng.choice(["contig", "contig", "permuted", "expanded"]), "updates": rng.randint(0, 2), "update_via": rng.choice(["data", "inplace"]), "spec": spec})
     res = ck.impl("grad", {"exact": exact, "modules": modules}, timeout=3300)
     if "crashed" in res:
         ck.violation("implementation worker crashed: " + res.get("stderr", "")[-300:], {"stderr": res.get("stderr")})
